@@ -1,3 +1,4 @@
 pub mod pdu;
 pub mod frame;
 pub mod server;
+pub mod client;
